@@ -1,62 +1,10 @@
-(* Tie T: what the translator extracted from measurementdata.go against the protocol's layout table.
-   - every supported data type dispatches to a Go type whose decoder layout has the spec's field widths, at every precision
-   - the encoders of the fixed-layout types store exactly the decoder's fields at the decoder's offsets
-   - the encoder's declared size is the layout's size *)
+(* Tie T: the layout checks of Spec/LayoutCheck.v hold for the tables regenerated from the current source. *)
 From Coq Require Import ZArith List String Bool.
-Require Import Base.GoInt Spec.LayoutKinds Spec.LayoutSpec Gen.Funcs Gen.Layouts.
-Import ListNotations.
+Require Import Base.GoInt Spec.LayoutKinds Spec.LayoutSpec Gen.Funcs Gen.Layouts Spec.LayoutCheck.
 Open Scope Z_scope.
-
-Fixpoint lookup_dispatch (dt : Z) (l : list (Z * (string * string))) : option (string * string) :=
-  match l with [] => None | (k, v) :: t => if dt =? k then Some v else lookup_dispatch dt t end.
-
-Definition zlist_eqb (a b : list Z) : bool :=
-  (fix eq (p q : list Z) := match p, q with [] , [] => true | x :: p', y :: q' => (x =? y) && eq p' q' | _, _ => false end) a b.
-
-(* 1. decoder layouts = spec widths, for every spec entry and every precision *)
-Definition dec_matches_spec : bool :=
-  forallb (fun e : Z * shape =>
-    let '(dt, sh) := e in
-    match lookup_dispatch dt dispatch_table with
-    | None => false
-    | Some (_, ty) =>
-        forallb (fun p => match dec_layout_of ty p with
-                          | Some l => zlist_eqb (map (fun f => ksize (snd f)) l) (spec_widths sh p)
-                          | None => false end) [0; 1; 2; 3]
-    end) spec_layouts
-  && forallb (fun d : Z * (string * string) => match lookup_shape (fst d) spec_layouts with Some _ => true | None => false end) dispatch_table
-  && (List.length dispatch_table =? List.length spec_layouts)%nat.
 
 Lemma dec_matches_spec_ok : dec_matches_spec = true.
 Proof. vm_compute. reflexivity. Qed.
-
-(* 2. encoder stores of the fixed-layout types coincide with the decoder layout: same field at the same
-   offset with the same width, in order, covering the data exactly *)
-Fixpoint stores_match (off : Z) (stores : list (Z * fkind * string)) (l : list (string * fkind)) : bool :=
-  match stores, l with
-  | [], [] => true
-  | (o, k, n) :: st, (n', k') :: l' => (o =? off) && (ksize k =? ksize k') && String.eqb n n' && stores_match (off + ksize k') st l'
-  | _, _ => false
-  end.
-
-Definition sort_stores (s : list (Z * fkind * string)) : list (Z * fkind * string) :=
-  (fix ins_all (l acc : list (Z * fkind * string)) :=
-     match l with
-     | [] => acc
-     | x :: t => ins_all t ((fix ins (y : Z * fkind * string) (a : list (Z * fkind * string)) :=
-                               match a with
-                               | [] => [y]
-                               | z :: a' => if fst (fst y) <=? fst (fst z) then y :: z :: a' else z :: ins y a'
-                               end) x acc)
-     end) s [].
-
-Definition enc_matches_dec : bool :=
-  forallb (fun ty => match enc_stores_of ty, dec_layout_of ty 0, enc_size_of ty 0 with
-                     | Some st, Some l, Some sz => stores_match 0 (sort_stores st) l && (layout_size l =? sz)
-                     | None, Some l, Some sz =>     (* precision-switched families: hand model + correspondence *)
-                         forallb (fun p => match dec_layout_of ty p, enc_size_of ty p with
-                                           | Some lp, Some sp => layout_size lp =? sp | _, _ => false end) [0; 1; 2; 3]
-                     | _, _, _ => false end) measurement_types.
 
 Lemma enc_matches_dec_ok : enc_matches_dec = true.
 Proof. vm_compute. reflexivity. Qed.
